@@ -1,6 +1,6 @@
 """Helpers shared by the per-property harnesses: models, concretisation, path validation."""
 import z3
-from .core import Sym, SInt, SBool, SStr, SSet, SSeq, MSet, Lit, IntLit, Val, Rep, SetLit, SeqLit, Undecided
+from .core import Sym, SInt, SBool, SStr, SSet, SSeq, MSet, Lit, IntLit, Val, Rep, SetLit, SeqLit, Pct, Undecided
 
 
 def model_of(constraints, rlimit=20000000):
@@ -44,6 +44,9 @@ def concretize(v, model, depth=0):
                 out.append(a.sep.join(map(str, sorted(concretize(a.sset, model)))))
             elif isinstance(a, SeqLit):
                 out.append(a.sep.join(str(x) for x in concretize(a.seq, model)))
+            elif isinstance(a, Pct):
+                import gffutils.parser as P
+                out.append("".join(P.quoter[c] for c in ev(model, a.u.v)))
             elif isinstance(a, Rep):
                 n = ev(model, a.seq.length)
                 out.append(a.sep.join([a.pattern] * n))
